@@ -40,8 +40,18 @@ TEMPLATES = {
                        "        self.rest = rest\n        self.kw = kw\n"
                        "    def m(self, x, y=0):\n        return self.p * x + self.q + y\n"
                        "    def __call__(self, x, y=0):\n        return ('called', self.p, x, y)\n"),
+    "callable_class_inherited": ("class _Base:\n    def __call__(self, x, y=0):\n        return ('base-called', self.p, x, y)\n"
+                                 "class _Mixin:\n    extra = {a}\n"
+                                 "class obj(_Mixin, _Base):\n    kind = 'inherits-call'\n    def __init__(self, p, q={b}, *rest, **kw):\n"
+                                 "        self.p = p\n        self.q = q\n        self.rest = rest\n        self.kw = kw\n"
+                                 "    def m(self, x, y=0):\n        return self.p * x + self.q + y + self.extra\n"),
+    "instance_inherited_call": ("class _Base:\n    def __call__(self, x, y=0):\n        return ('base-called', self.p, x, y)\n"
+                                "class K(_Base):\n    def __init__(self, p, q={b}):\n        self.p = p\n        self.q = q\n"
+                                "    def m(self, x, y=0):\n        return self.p * x - self.q + y\n"
+                                "obj = K({a})\n"),
 }
 ATTRS = {"attr_func": ["tag", "info", "__name__"], "instance": ["p", "q", "double"], "callable_instance": ["p", "q"],
+         "instance_inherited_call": ["p", "q"],
          "lambda": ["__name__"], "closure": ["__name__"], "nested": ["__name__"], "recursive": ["__name__"]}
 
 
@@ -54,7 +64,7 @@ def build(kind, a, b):
 def _behaviour(o, kind, argsets, ctor=None):
     """Observable behaviour of an object (or of a wrapped one): a JSON-able summary."""
     out = {"callable": callable(o)}
-    if kind in ("class", "callable_class"):
+    if kind in ("class", "callable_class", "callable_class_inherited"):
         return out
     calls = []
     if callable(o):
@@ -98,11 +108,11 @@ def check_case(case):
     except Exception:
         bare_picklable = False
     case["_bare_picklable"] = bare_picklable
-    is_class = kind in ("class", "callable_class")
+    is_class = kind in ("class", "callable_class", "callable_class_inherited")
     if is_class:
         ctor_args, ctor_kw = tuple(case["ctor"][0]), dict(case["ctor"][1])
         ref = obj(*ctor_args, **ctor_kw)
-        ikind = "callable_instance" if kind == "callable_class" else "instance"
+        ikind = "callable_instance" if kind != "class" else "instance"
         W = wrap_non_picklable_objects(obj, keep_wrapper=keep)
         try:
             w = W(*ctor_args, **ctor_kw)
@@ -162,7 +172,7 @@ def shard(seed, n):
         c = {"kind": kind, "a": draw(small), "b": draw(small), "keep_wrapper": draw(st.booleans()),
              "rounds": draw(st.integers(1, 3)), "double_wrap": draw(st.booleans()),
              "argsets": draw(st.lists(argset, min_size=3, max_size=3))}
-        if kind in ("class", "callable_class"):
+        if kind in ("class", "callable_class", "callable_class_inherited"):
             extra = draw(st.lists(small, min_size=0, max_size=2))
             kw = draw(st.dictionaries(st.sampled_from(["u", "v"]), small, max_size=2))
             pos = [draw(small)] + (([draw(small)] + extra) if draw(st.booleans()) else [])
